@@ -9,7 +9,7 @@ import os, json, shutil, hashlib, re
 import vlib, femgen, femmrun, geomgen
 
 # theorems about the renumbering model Renumber.v that belong to this property (its correspondence runs with C02: props/xcm.py)
-EXTRA_PROPERTY_FILES = ["C08_renumber"]
+EXTRA_PROPERTY_FILES = ["C08_renumber", "C08_load"]
 LEVEL = "proof"
 COQ_MODULES = []
 ASSUMPTIONS = [
@@ -20,6 +20,11 @@ SAN_RE = re.compile(r"(Assertion '[^']*' failed|ERROR: AddressSanitizer|runtime 
 EXT = {"fee": ".fee", "feh": ".feh", "fem": ".fem"}
 RES = {"fee": ".res", "feh": ".anh", "fem": ".ans"}
 SOLVER = {"fee": "esolver", "feh": "hsolver", "fem": "fsolver"}
+
+
+def regen(ctx):
+    from props import xload
+    xload.regen(ctx)          # gen/LoadConsts.v + anchors of the LoadMesh model (Properties_C08_load.v)
 
 
 def san_env(perturb):
